@@ -286,14 +286,51 @@ func (r *Run) recoverTask() {
 		if _, ok := x.(stopRun); ok {
 			return
 		}
-		// a panic inside the system under test is reported by the check that
-		// cares (via Catch); anything reaching here is unexpected
+		// a panic raised inside the system under test (innermost non-runtime
+		// frame under /repo/) is a violation; a panic of the harness is trouble
+		stack := string(debug.Stack())
 		r.mu.Lock()
 		if r.viol == nil && r.trouble == "" {
-			r.trouble = fmt.Sprintf("unexpected panic: %v\n%s", x, debug.Stack())
+			if fn := sutPanicFrame(stack); fn != "" {
+				r.viol = &Violation{Class: "panic", Sig: "panic:" + fn, Msg: fmt.Sprintf("panic in the system under test: %v\n%s", x, stack)}
+			} else {
+				r.trouble = fmt.Sprintf("unexpected panic: %v\n%s", x, stack)
+			}
 		}
 		r.mu.Unlock()
 	}
+}
+
+// sutPanicFrame returns the function in which a panic was raised if that
+// function belongs to the system under test, "" otherwise.
+func sutPanicFrame(stack string) string {
+	lines := strings.Split(stack, "\n")
+	start := -1
+	for i, l := range lines {
+		if strings.HasPrefix(l, "panic(") {
+			start = i
+		}
+	}
+	if start < 0 {
+		return ""
+	}
+	for i := start + 2; i+1 < len(lines); i += 2 {
+		fn, file := lines[i], strings.TrimSpace(lines[i+1])
+		if strings.HasPrefix(file, "/opt/") || strings.Contains(file, "/src/runtime/") || strings.Contains(file, "/go1.") {
+			continue
+		}
+		if strings.HasPrefix(file, "/repo/") || strings.Contains(file, "codenotary/immudb") {
+			if j := strings.LastIndex(fn, "("); j > 0 {
+				fn = fn[:j]
+			}
+			if j := strings.LastIndex(fn, "/"); j >= 0 {
+				fn = fn[j+1:]
+			}
+			return fn
+		}
+		return ""
+	}
+	return ""
 }
 
 // Catch runs f and converts a panic raised by the system under test into an
